@@ -896,6 +896,37 @@ def generate_pool_race(seed, tie='prng'):
             'seed': seed, 'max_events': 20000, 'profile': 'pool_race'}
 
 
+def generate_late_merge(seed, tie='prng'):
+    """Two to four feeders that have no customer yet (each holds its first part, blocked) are connected to one
+    single-slot station by ONE set_upstream() call while the line is running: all of them offer
+    at that instant and the tie-break decides.  The order in which they are linked is the order of the list."""
+    rng = random.Random(core.stable_int('latemerge', seed))
+    k = rng.choice([2, 2, 3, 4])
+    items = []
+    filler = rng.choice([0, 0, 1, 2])       # unrelated assets created between the feeders (gaps in the ids)
+    for j in range(k):
+        items.append({'id': f'S{j}', 'kind': 'source', 'ct': rng.choice([0, 0.5, 1]), 'budget': rng.choice([2, 3, 5]),
+                      'values': [1], 'qualities': [1]})
+        for f in range(filler if j + 1 < k else 0):
+            items.append({'id': f'X{j}_{f}', 'kind': 'source', 'ct': 1, 'budget': 0, 'values': [1], 'qualities': [1]})
+    own = rng.random() < 0.4
+    if own:
+        items.append({'id': 'S9', 'kind': 'source', 'ct': 1, 'budget': 3, 'values': [1], 'qualities': [1]})
+    items.append({'id': 'P0', 'kind': rng.choice(['handler', 'processor']), 'up': ['S9'] if own else [],
+                  'ct': rng.choice([1, 1.5, 2]), 'res': None})
+    items.append({'id': 'K0', 'kind': 'sink', 'up': ['P0'], 'ct': 0, 'collect': True})
+    order = [f'S{j}' for j in range(k)]
+    if rng.random() < 0.5:
+        rng.shuffle(order)
+    total = float(rng.choice([12, 16, 24]))
+    t = rng.choice([1.5, 2.25, 4, 6.5])
+    script = [{'t': t, 'prio': rng.choice([5, 10.5, 3.5]), 'op': 'rewire_many', 'target': 'P0', 'new_ups': order,
+               'front': rng.random() < 0.3}]
+    spec = {'resources': {}, 'items': items, 'horizon': [total], 'script': script, 'tie': tie, 'seed': seed,
+            'max_events': 20000, 'default_names': rng.random() < 0.5, 'profile': 'late_merge'}
+    return spec
+
+
 def generate_shared_cell(seed, tie='prng'):
     """Two or three sources that always compete for one shared cell (a group with a single slow machine), each through
     its own, default-named path to its own sink."""
